@@ -27,16 +27,24 @@ type Ctx struct {
 	spec    *FuncSpec
 	inOld   bool
 	depth   int
+	preSt   *State // state before the enclosing loop was entered
+	entrySt *State // function entry state
 }
 
 // TV: typed symbolic value or untyped constant.
 type TV struct {
-	V *Val
-	T types.Type
-	K *big.Int // untyped integer constant
-	B *bool    // untyped boolean constant
-	S *string  // string literal
+	V   *Val
+	T   types.Type
+	K   *big.Int // untyped integer constant
+	B   *bool    // untyped boolean constant
+	S   *string  // string literal
 	Nil bool
+	CK  *condK // conditional between two untyped integer constants (typed on demand)
+}
+
+type condK struct {
+	c    string
+	a, b *big.Int
 }
 
 func (cx *Ctx) fail(format string, a ...interface{}) {
@@ -92,6 +100,9 @@ func (cx *Ctx) evalBool(e CExpr) string {
 
 func (cx *Ctx) evalInt(e CExpr) string {
 	tv := cx.eval(e)
+	if tv.CK != nil {
+		tv = cx.typed(tv, tInt)
+	}
 	tv = cx.typed(tv, tInt)
 	it := intTOf(tv.T)
 	if it == nil {
@@ -102,6 +113,11 @@ func (cx *Ctx) evalInt(e CExpr) string {
 
 // typed converts an untyped constant to type t.
 func (cx *Ctx) typed(tv TV, t types.Type) TV {
+	if tv.CK != nil {
+		a := cx.typed(TV{K: tv.CK.a}, t)
+		b := cx.typed(TV{K: tv.CK.b}, t)
+		return TV{V: sv(ite(tv.CK.c, a.V.T, b.V.T)), T: t}
+	}
 	if tv.K != nil {
 		it := intTOf(t)
 		if it == nil {
@@ -385,9 +401,12 @@ func (cx *Ctx) eval(e CExpr) TV {
 	case *CCond:
 		c := cx.evalBool(x.C)
 		a, b := cx.eval(x.A), cx.eval(x.B)
-		a, b = cx.unify(a, b)
 		if a.K != nil && b.K != nil {
-			a, b = cx.typed(a, tInt), cx.typed(b, tInt)
+			return TV{CK: &condK{c, a.K, b.K}}
+		}
+		a, b = cx.unify(a, b)
+		if a.B != nil || b.B != nil {
+			a, b = cx.typed(a, tBool), cx.typed(b, tBool)
 		}
 		l := ex.ls.of(a.T)
 		return TV{V: ex.iteVal(l, c, a.V, b.V), T: a.T}
@@ -486,7 +505,7 @@ func fieldIndex(st *types.Struct, name string) (int, int) {
 
 func (cx *Ctx) convert(v TV, t types.Type) TV {
 	ex := cx.ex
-	if v.K != nil || v.B != nil || v.S != nil || v.Nil {
+	if v.K != nil || v.B != nil || v.S != nil || v.Nil || v.CK != nil {
 		return cx.typed(v, t)
 	}
 	lf, lt := ex.ls.of(v.T), ex.ls.of(t)
@@ -503,8 +522,11 @@ func (cx *Ctx) convert(v TV, t types.Type) TV {
 // unify gives two operands a common type (untyped constants adopt the
 // other operand's type).
 func (cx *Ctx) unify(a, b TV) (TV, TV) {
-	aU := a.K != nil || a.B != nil || a.S != nil || a.Nil
-	bU := b.K != nil || b.B != nil || b.S != nil || b.Nil
+	aU := a.K != nil || a.B != nil || a.S != nil || a.Nil || a.CK != nil
+	bU := b.K != nil || b.B != nil || b.S != nil || b.Nil || b.CK != nil
+	if aU && bU && (a.K != nil || a.CK != nil) && (b.K != nil || b.CK != nil) {
+		return cx.typed(a, tInt), cx.typed(b, tInt)
+	}
 	switch {
 	case aU && !bU:
 		return cx.typed(a, b.T), b
@@ -588,7 +610,7 @@ func (cx *Ctx) binary(x *CBinary) TV {
 	}
 	if x.Op == "<<" || x.Op == ">>" {
 		// shift: right operand is a count
-		if a.K != nil {
+		if a.K != nil || a.CK != nil {
 			a = cx.typed(a, tInt)
 		}
 		it := intTOf(a.T)
@@ -759,6 +781,20 @@ func (cx *Ctx) call(x *CCall) TV {
 		}
 		sub := *cx
 		sub.inOld = true
+		sub.goal = false
+		return sub.eval(x.Args[0])
+	case "pre", "entry":
+		st := cx.preSt
+		if x.Fun == "entry" {
+			st = cx.entrySt
+		}
+		if st == nil {
+			cx.fail("%s() used where no such state exists: %s", x.Fun, x)
+		}
+		sub := *cx
+		sub.inOld = true
+		sub.old = st
+		sub.oldVals = nil
 		sub.goal = false
 		return sub.eval(x.Args[0])
 	case "fresh":
@@ -948,6 +984,8 @@ func (fr *Frame) loopCtx(li *loopInfo, next map[string]*Val, st *State, goal boo
 	cx := fr.baseCtx(st)
 	cx.goal = goal
 	cx.old = fr.entrySt
+	cx.entrySt = fr.entrySt
+	cx.preSt = li.preSt
 	cur := map[string]*Val{}
 	if next == nil {
 		for _, in := range li.header.Instrs {
